@@ -358,8 +358,18 @@ func (g *irGenCtx) genRoute(ci, ri int, ctrlPath string, schemes []irScheme, per
 		}
 		addParam("Path", pp)
 	}
+	usedHdr := map[string]bool{}
 	for k := r.Intn(3); k > 0; k-- {
-		addParam(rng.Pick(r, []string{"Query", "Query", "Header"}), fmt.Sprintf("w%d", ord))
+		loc := rng.Pick(r, []string{"Query", "Query", "Header"})
+		wire := fmt.Sprintf("w%d", ord)
+		if loc == "Header" && r.Chance(1, 3) {
+			// header names with a meaning of their own are declared parameters like any other, in both documents
+			if h := rng.Pick(r, []string{"Authorization", "Accept", "Content-Type", "authorization", "X-Request-Id", "If-Match"}); !usedHdr[strings.ToLower(h)] {
+				usedHdr[strings.ToLower(h)] = true
+				wire = h
+			}
+		}
+		addParam(loc, wire)
 	}
 	if rt.Verb != "GET" && rt.Verb != "DELETE" {
 		switch r.Intn(4) {
